@@ -91,7 +91,7 @@ var (
 	vfC15CtlBytes = []byte{0x00, 0x01, 0x07, 0x08, 0x0b, 0x0c, 0x0e, 0x1a, 0x1b, 0x1f, 0x7f}
 	// vfC15PlainCtlBytes are control bytes that are not white space.
 	vfC15PlainCtlBytes = []byte{0x00, 0x01, 0x07, 0x08, 0x0e, 0x1a, 0x1b, 0x1f, 0x7f}
-	vfC15HTML     = []string{
+	vfC15HTML          = []string{
 		"<html>", "<!DOCTYPE html>", "<HTML lang=\"en\">", "  <!doctype html>", "<!DocType HTML PUBLIC \"-//W3C//DTD\">",
 		"\t<html><head><title>404 Not Found</title></head>", "<hTmL", "<!doctype",
 	}
